@@ -81,6 +81,11 @@ def run(chk, tier):
     capfield.run(_Check("C06-pairs"), P, units=None)      # discovery of the (record, array, capacity) pairs only
     ncr = capfield.reset_with_array(chk, P, rule="R-CAPRESET")
     chk.floor("R-CAPRESET", "functions that leave a counted topology array NULL", ncr, 2)
+    chk.rule("R-LOADUNDO", "what hwloc_topology_destroy() releases below the topology and hwloc__topology_init() did not allocate is also released on the failing return of hwloc_topology_load() "
+             "that follows the re-initialisation (sets from destroy's releasing calls, init's allocations and must-facts on completed calls): contents of a rejected input do not survive into the next load")
+    import loadundo
+    nlu = loadundo.run(chk, P, effects.Effects(P))
+    chk.floor("R-LOADUNDO", "topology fields released by destroy()", nlu, 3)
     chk.rule("R-MULWIDTH", "a product of numbers converted from XML text that is computed in a type of at most 32 bits cannot wrap: the function is explored with every conversion "
              "forced to return 2^(w/2) (65536 for 32 bits, the smallest value whose square does not fit); the multiplication must be unreachable with that value, however the bound is written")
     import mulwidth
@@ -96,6 +101,7 @@ def run(chk, tier):
              loc="selftest/examples/mulwidth.c", nontrivial=False)
     chk.floor("R-MULWIDTH", "narrow products of converted numbers in the XML import code + positive example", nmw + 1, 1)
     chk.decided += ['an imported object identifier keeps next_gp_index above it',
+                    'a failed load releases the topology-level infos it gathered: the next load on the same topology does not report attributes of the rejected input',
                     'a normal or memory object without cpuset, nodeset, complete_cpuset or complete_nodeset attribute is rejected (the core dereferences all four)',
                     'releasing the CPU-kind array of a topology also resets its recorded capacity (a failed load followed by a second load does not append through NULL)',
                     'a number of objects read from XML is bounded before its square is computed in 32 bits (the distances matrix is allocated and bound-checked with the true number of values)',
